@@ -377,15 +377,6 @@ def _composes(run, f: Func, target: str, tag: str, what: str):
 def r2_selection(run):
     p = run.project
     _anchors(run.project)
-    seen = {}
-    for app, _q, tag in APPS:
-        f = effective_method(p, app, '_find_error_handler')
-        seen.setdefault(f.qual, (f, []))[1].append(tag)
-    for f, tags in seen.values():
-        _find_handler(run, f, '/'.join(tags))
-    for app, _q, tag in APPS:
-        f = p.func(app + '.add_error_handler')
-        _registration(run, f, tag)
     # ownership: the registry is written only by the registration API (and
     # created in __init__); a lookup that writes back (memoisation of a
     # resolved ancestor handler, say) pins the answer for that concrete class
@@ -416,6 +407,15 @@ def r2_selection(run):
                       runtime_witness='raise Leaf once (resolved via an ancestor handler), then add_error_handler(Mid, h), raise Leaf again: h is not used')
     if n_writers < 2:
         raise AnchorError('writers of _error_handlers not found (%d)' % n_writers)
+    seen = {}
+    for app, _q, tag in APPS:
+        f = effective_method(p, app, '_find_error_handler')
+        seen.setdefault(f.qual, (f, []))[1].append(tag)
+    for f, tags in seen.values():
+        _find_handler(run, f, '/'.join(tags))
+    for app, _q, tag in APPS:
+        f = p.func(app + '.add_error_handler')
+        _registration(run, f, tag)
     # default handlers
     init = p.func(WSGI_APP + '.__init__')
     cfg = cfg_of(init, p)
